@@ -569,7 +569,7 @@ impl Write for SW {
         };
         self.k += 1;
         self.calls.lock().unwrap().0 += 1;
-        if self.k > 2_000_000 {
+        if self.k > 60_000_000 {
             panic!("sink call bound exceeded");
         }
         if s < 0 {
@@ -599,7 +599,7 @@ impl Read for SR {
             i64::MAX
         };
         self.k += 1;
-        if self.k > 2_000_000 {
+        if self.k > 60_000_000 {
             panic!("source call bound exceeded");
         }
         if s < 0 {
